@@ -9,7 +9,7 @@ from . import pse
 from .backend import RealBackend, ConcSym, ReplayInfeasible
 
 
-def run_vector(h, inputs):
+def run_vector(h, inputs, all_seeds=True):
     if h.mode == "unit":
         sym = ConcSym(inputs)
         try:
@@ -19,7 +19,25 @@ def run_vector(h, inputs):
         except ReplayInfeasible:
             return {"infeasible": True}
         return {"violation": None}
-    b = RealBackend(**h.real_opts)
+    from . import backend as _be
+    opts = dict(h.real_opts)
+    seeds = opts.pop("content_seeds", 1)
+    if not all_seeds:
+        seeds = min(seeds, 2)
+    last = {"violation": None}
+    for seed in range(seeds):
+        _be.CONTENT_SEED[0] = seed
+        last = _run_once(h, inputs, opts)
+        if last.get("violation") or last.get("error") or last.get("infeasible"):
+            if last.get("violation") and seed:
+                last["content_seed"] = seed
+            break
+    _be.CONTENT_SEED[0] = 0
+    return last
+
+
+def _run_once(h, inputs, opts):
+    b = RealBackend(**opts)
     try:
         sym = ConcSym(inputs)
         try:
@@ -48,7 +66,7 @@ def main(argv=None):
         out = []
         for vec in req["vectors"]:
             try:
-                out.append(run_vector(h, vec))
+                out.append(run_vector(h, vec, req.get("mode") != "conformance"))
             except Exception as ex:
                 out.append({"error": "".join(traceback.format_exception(ex))[-3000:]})
         print("REPLAY-RESULT " + json.dumps(out, default=str))
